@@ -332,6 +332,32 @@ theorem acquires_in_k_iterations (n : Nat) (i : Nat) : ∀ (ps : List Nat) (gs :
       · rw [hh2, hh1]; simp
       · rw [hn2, hn1]; simp only [duration]; omega
 
+theorem duration_le (MI L : Nat) : ∀ (gs : List (Nat × Nat × Nat)),
+    (∀ g, g ∈ gs → g.1 ≤ MI ∧ g.2.1 + g.2.2 ≤ L) → duration gs ≤ gs.length * (MI + L)
+  | [], _ => by simp [duration]
+  | (a, b, c) :: gs, h => by
+    have h1 := h (a, b, c) List.mem_cons_self
+    have h2 := duration_le MI L gs (fun g hg => h g (List.mem_cons_of_mem _ hg))
+    simp only [duration, List.length_cons]
+    have : (gs.length + 1) * (MI + L) = gs.length * (MI + L) + (MI + L) := Nat.succ_mul _ _
+    simp only at h1
+    omega
+
+/-- **The time bound of C09**: if every iteration sleeps at most `MI` (MaxInterval) and its lease call takes at most `L`
+(latency before + after the store processes it), and `k × (MI + L)` is shorter than a lease, then `k` free, needed
+partitions are all counted at most `k × (MI + L)` after they became free — which is at most one lease duration after
+the last fault / the death of the peer that held them (`dead_peer_free_after_lease`). That the real loop's sleep is
+`rand[0, MaxInterval)` ms is read off the source (skeleton of the loop) and watched by the bounded-time monitor. -/
+theorem acquired_within_time_bound (n i : Nat) (ps : List Nat) (gs : List (Nat × Nat × Nat)) (s : LSt) (MI L : Nat)
+    (hl : ps.length = gs.length) (hb : ∀ g, g ∈ gs → g.1 ≤ MI ∧ g.2.1 + g.2.2 ≤ L)
+    (hr : Ready n s i ps (ps.length * (MI + L))) :
+    ∃ s', lrun n s (schedule i ps gs) = some s' ∧ (s'.inst i).held = (s.inst i).held ++ ps ∧
+      s'.now ≤ s.now + ps.length * (MI + L) := by
+  have hd := duration_le MI L gs hb
+  rw [← hl] at hd
+  obtain ⟨s', h1, h2, h3⟩ := acquires_in_k_iterations n i ps gs s (ps.length * (MI + L)) hl hd hr
+  exact ⟨s', h1, h2, by omega⟩
+
 -- non-vacuity: two free partitions, demand for both, two iterations of 1+1+1 s: both held after 6 s (< 15 s)
 private def x0 : LInst := { LInst.init .v2 1 0 2 with phase := .started, loopOn := true, parts := 2, target := 2 }
 private def s0 : LSt := { now := 100, lease := 15, store := fun p => if p = 0 then some (7, 90) else none, inst := fun _ => x0 }
